@@ -231,8 +231,10 @@ class InterfaceLDM3:
         """
         self.logging.debug(
             "Deleting provider data from application id %d", data_provider.application_id)
-        if self.ldm_service.ldm_maintenance.data_containers.exists("dataObjectID", data_provider.data_object_id):
-            self.ldm_service.ldm_maintenance.del_provider_data_by_id(data_provider.data_object_id)
+        # The removal itself decides the answer: of two overlapping deletions of the same object only one removes it.
+        if self.ldm_service.ldm_maintenance.data_containers.exists(
+            "dataObjectID", data_provider.data_object_id
+        ) and self.ldm_service.ldm_maintenance.del_provider_data_by_id(data_provider.data_object_id):
             return DeleteDataProviderResp(
                 data_provider.application_id,
                 data_provider.data_object_id,
